@@ -119,9 +119,9 @@ package shell_operator
 //@   requires taskHook.HookController != nil && t != nil && taskHook.Config != nil && (taskHook.Config.Version == "v0" || taskHook.Config.Version == "v1")
 //@   requires [ghost-wf] hook.nProcess >= 0 && !hook.fsExists[""]
 //@   modifies bindingcontext.lastConvIn, bindingcontext.lastConvVersion, bindingcontext.lastConvOut, controller.lastRefreshIn, controller.lastRefreshOut, controller.snapCount, controller.snapOf, hook.fsExists, hook.ctxFileContent, hook.nProcess, hook.lastExitErr, hook.nOutputsRead, hook.lastEnviron
-//@   modifies hook.nRun, hook.ranContexts, ranErr, hook.lastWaitHook, hook.lastHookResult, hook.lastHookErr, nSetAdm, lastAdmProp, nSend, lastSendErr, objectpatch.nPatchExec, objectpatch.nExec, objectpatch.execOp, objectpatch.execErr, objectpatch.lastSpecs, objectpatch.lastDecodeErr
+//@   modifies hook.nRun, hook.lastRunHook, hook.ranContexts, ranErr, hook.lastWaitHook, hook.lastHookResult, hook.lastHookErr, nSetAdm, lastAdmProp, nSend, lastSendErr, objectpatch.nPatchExec, objectpatch.nExec, objectpatch.execOp, objectpatch.execErr, objectpatch.lastSpecs, objectpatch.lastDecodeErr
 //@   ghostset ranErr := result
-//@   ensures [runs-once]                hook.nRun == old(hook.nRun) + 1 && hook.ranContexts == hookMeta.BindingContext
+//@   ensures [runs-once]                hook.nRun == old(hook.nRun) + 1 && hook.ranContexts == hookMeta.BindingContext && hook.lastRunHook == taskHook
 //@   ensures [hook-error-fails]         hook.lastHookErr != nil ==> result != nil
 //@   ensures [response-only-on-success] nSetAdm > old(nSetAdm) ==> result == nil && hook.lastHookErr == nil && nSetAdm == old(nSetAdm) + 1
 //@   ensures [response-is-hooks]        nSetAdm > old(nSetAdm) ==> dyntype(lastAdmProp, *admission.Response) && lastAdmProp.(*admission.Response) == hook.lastHookResult.AdmissionResponse && hook.lastHookResult.AdmissionResponse != nil
@@ -417,9 +417,9 @@ package shell_operator
 // rate-limit wait of the same hook. C01/C06: monitors are unlocked only after a successful
 // Synchronization.
 //@ func (*ShellOperator).taskHandleHookRun
-//@   prop C04, C18, C14, C06, C01
+//@   prop C04, C18, C14, C06, C01, C03, C07
 //@   requires op.HookManager != nil && op.TaskQueues != nil && t != nil
-//@   modifies hook.nRun, hook.ranContexts, ranErr, nCombine, lastCombine, allMergedAllowFailure, nUpdateMeta, lastMeta, nUnlock, unlockIds, nUnlockAll, hook.lastWaitHook, hook.lastWaitErr, hook.lastHookResult, hook.lastHookErr, nSetAdm, lastAdmProp, nSend, lastSendErr, objectpatch.nPatchExec, objectpatch.nExec, objectpatch.execOp, objectpatch.execErr, objectpatch.lastSpecs, objectpatch.lastDecodeErr, gotMeta, metaEpoch, rate.lastWaitLimiter, rate.lastLimiterErr
+//@   modifies hook.nRun, hook.lastRunHook, hook.ranContexts, ranErr, nCombine, lastCombine, allMergedAllowFailure, nUpdateMeta, lastMeta, nUnlock, unlockIds, nUnlockAll, hook.lastWaitHook, hook.lastWaitErr, hook.lastHookResult, hook.lastHookErr, nSetAdm, lastAdmProp, nSend, lastSendErr, objectpatch.nPatchExec, objectpatch.nExec, objectpatch.execOp, objectpatch.execErr, objectpatch.lastSpecs, objectpatch.lastDecodeErr, gotMeta, metaEpoch, rate.lastWaitLimiter, rate.lastLimiterErr
 //@   requires [ghost-wf] hook.nProcess >= 0 && !hook.fsExists[""]
 //@   modifies bindingcontext.lastConvIn, bindingcontext.lastConvVersion, bindingcontext.lastConvOut, controller.lastRefreshIn, controller.lastRefreshOut, controller.snapCount, controller.snapOf, hook.fsExists, hook.ctxFileContent, hook.nProcess, hook.lastExitErr, hook.nOutputsRead, hook.lastEnviron
 //@   modifies seenItems, filterItems, mergedTasks, mergedSeq, lastCombined, nMerged, all(queue.TaskQueue.items), all(queue.TaskQueue.measureActionFn), queue.nMut, allelems(string)
@@ -445,6 +445,10 @@ package shell_operator
 //@        && metaOf(t, ep0).(task_metadata.HookMetadata).BindingContext[0].Metadata.BindingType == "kubernetes" && metaOf(t, ep0).(task_metadata.HookMetadata).BindingContext[0].Type == kemTypes.TypeSynchronization
 //@        && result.Status == "Success" ==> (nUpdateMeta > old(nUpdateMeta) && nUnlock == old(nUnlock) + len(lastMeta.(task_metadata.HookMetadata).MonitorIDs))
 //@           || (nUpdateMeta == old(nUpdateMeta) && nUnlock == old(nUnlock) + len(metaOf(t, ep0).(task_metadata.HookMetadata).MonitorIDs))
+//@   ensures [combines-unless-ungrouped-synchronization @C07] hook.nRun == old(hook.nRun) + 1 && hook.lastRunHook != nil && hook.lastRunHook.Config != nil && hook.lastRunHook.Config.Version == "v1"
+//@        && dyntype(metaOf(t, ep0), task_metadata.HookMetadata) && len(metaOf(t, ep0).(task_metadata.HookMetadata).BindingContext) > 0
+//@        && !(metaOf(t, ep0).(task_metadata.HookMetadata).BindingType == "kubernetes" && metaOf(t, ep0).(task_metadata.HookMetadata).BindingContext[0].Type == kemTypes.TypeSynchronization && metaOf(t, ep0).(task_metadata.HookMetadata).Group == "")
+//@        ==> nCombine == old(nCombine) + 1
 //@   ensures [no-extra-tasks]       len(result.HeadTasks) == 0 && len(result.TailTasks) == 0 && len(result.AfterTasks) == 0
 //@   loop 1
 //@     invariant nUnlock >= old(nUnlock) && res.Status == "Success"
